@@ -144,6 +144,8 @@ func checkC07(c *Ctx) {
 	c07HandlerPropertyNames(c)
 	r.Rule("R07j", "a flattened oneof whose variant children share a name with a parent property (plain, optional, member of another oneof, discriminator) is refused: the intersection type Base & Payload would declare the property twice with different types (scenarios shared with C12/R12g)", 5)
 	c12ScenariosRule(c, "R07j", func(fn, rule string) bool { return fn == "validateOneofFlatten" })
+	r.Rule("R07k", "codec collectors visit nested declarations unconditionally (shared with C04/R04i): a nested annotated message gets the codec that writes the declared TypeScript form", 14)
+	collectorRecursion(c, "R07k")
 	c07Presence(c)
 }
 
@@ -499,12 +501,16 @@ func init() { props["C07"] = checkC07 }
 // c07HandlerPropertyNames: R07i — the TS server stores a path value under the bound field's JSON name (the name the
 // request interface declares). The function that resolves path variables to fields is interpreted on a request
 // message whose field has an explicit json_name; the property name it yields must be that JSON name.
-func c07HandlerPropertyNames(c *Ctx) {
+func c07HandlerPropertyNames(c *Ctx, rid ...string) {
 	r := c.R
-	r.Rule("R07i", "URL values are stored under the property names the request interface declares (the fields' JSON names)", 1)
+	rule := "R07i"
+	if len(rid) > 0 {
+		rule = rid[0]
+	}
+	r.Rule(rule, "URL values are stored under the property names the request interface declares (the fields' JSON names)", 1)
 	fn := c.P.Func(pkgTSServer, "resolvePathParamFields")
 	if fn == nil {
-		r.Unres("R07i", "resolvePathParamFields", "", "not found")
+		r.Unres(rule, "resolvePathParamFields", "", "not found")
 		return
 	}
 	pos := c.P.Pos(c.P.Decls[fn].Pos())
@@ -520,7 +526,7 @@ func c07HandlerPropertyNames(c *Ctx) {
 	run.CallHook = c.cdescHook
 	run.StartArgs(fn, map[string]Val{"pathParams": VList{Key: "pp", Elems: []Val{constStr("document_id"), constStr("section_no")}}, "method": m})
 	if len(run.Used) > 0 || run.Aborted != "" {
-		r.Undec("R07i", "path variables resolved to request properties", pos, fmt.Sprintf("open decisions %v aborted %q", usedKeys(run), run.Aborted))
+		r.Undec(rule, "path variables resolved to request properties", pos, fmt.Sprintf("open decisions %v aborted %q", usedKeys(run), run.Aborted))
 		return
 	}
 	var got []string
@@ -543,6 +549,6 @@ func c07HandlerPropertyNames(c *Ctx) {
 		}
 	}
 	want := []string{"docId", "sectionNo"}
-	r.Check(strings.Join(got, ",") == strings.Join(want, ","), "R07i", "path variables {document_id (json_name docId), section_no} are bound to the properties docId, sectionNo", pos,
+	r.Check(strings.Join(got, ",") == strings.Join(want, ","), rule, "path variables {document_id (json_name docId), section_no} are bound to the properties docId, sectionNo", pos,
 		fmt.Sprintf("resolvePathParamFields yields the property names %v for the path variables {document_id (json_name \"docId\"), section_no}; the request interface declares %v: the handler receives the path value under an undeclared property and the declared one stays undefined", got, want))
 }
